@@ -22,11 +22,17 @@ pub struct Out {
 
 /// poll `read` by hand; after the n-th `Pending` (0-based, counted over the whole session) drop the future if n is in `drops`
 pub fn run_cancel(compressed: bool, verify: bool, events: Vec<Ev>, wscript: Vec<WEv>, drops: &BTreeSet<usize>) -> Option<Out> {
+    run_cancel_f(compressed, verify, events, wscript, vec![], drops)
+}
+
+/// … with a readiness script for the transport's `poll_flush` (`true` = not ready for that call)
+pub fn run_cancel_f(compressed: bool, verify: bool, events: Vec<Ev>, wscript: Vec<WEv>, fscript: Vec<bool>, drops: &BTreeSet<usize>) -> Option<Out> {
     let drops = drops.clone();
     guard(std::panic::AssertUnwindSafe(move || {
         let rt = tokio::runtime::Builder::new_current_thread().enable_time().start_paused(true).build().unwrap();
         let _g = rt.enter();
         let script = Script::new(events, wscript);
+        script.lock().unwrap().fscript = fscript.into();
         let tr = Transport(script.clone());
         let mut framed = insim::net::tokio_impl::Framed::new(Box::new(tr.clone()), Codec::new(mode_of(compressed)));
         framed.verify_version(verify);
@@ -79,14 +85,20 @@ fn drops_text(d: &BTreeSet<usize>) -> String {
 }
 
 pub fn cancel_case(ctx: &mut Ctx, compressed: bool, verify: bool, frames: &[Vec<u8>], events: &[Ev], wscript: &[WEv], drops: &BTreeSet<usize>) {
+    cancel_case_f(ctx, compressed, verify, frames, events, wscript, &[], drops)
+}
+
+#[allow(clippy::too_many_arguments)]
+pub fn cancel_case_f(ctx: &mut Ctx, compressed: bool, verify: bool, frames: &[Vec<u8>], events: &[Ev], wscript: &[WEv], fscript: &[bool], drops: &BTreeSet<usize>) {
     let (tbl_s, _) = class_table(compressed, frames);
-    let op = format!("cancel {} {} {} {} {} {}", mode_tok(compressed), if verify { "v1" } else { "v0" }, tbl_s, script_text(events), wscript_text(wscript), drops_text(drops));
-    let r = run_cancel(compressed, verify, events.to_vec(), wscript.to_vec(), drops);
+    let mut op = format!("cancel {} {} {} {} {} {}", mode_tok(compressed), if verify { "v1" } else { "v0" }, tbl_s, script_text(events), wscript_text(wscript), drops_text(drops));
+    if !fscript.is_empty() { op.push_str(&format!(" fl={}", fscript.iter().map(|b| if *b { "1" } else { "0" }).collect::<Vec<_>>().join(","))); }
+    let r = run_cancel_f(compressed, verify, events.to_vec(), wscript.to_vec(), fscript.to_vec(), drops);
     let res = match &r { None => "panic".to_string(), Some(o) => format!("{} | out={}", if o.items.is_empty() { "-".to_string() } else { o.items.join(";") }, hex(&o.out)) };
     ctx.case(&op, &res);
     // oracle: same deliveries and same outgoing bytes as the uninterrupted session
     if !drops.is_empty() {
-        let base = run_cancel(compressed, verify, events.to_vec(), wscript.to_vec(), &BTreeSet::new());
+        let base = run_cancel_f(compressed, verify, events.to_vec(), wscript.to_vec(), fscript.to_vec(), &BTreeSet::new());
         if let (Some(a), Some(b)) = (&r, &base) {
             // a session cut short by an exhausted script delivers a prefix; compare what both delivered
             if a.items != b.items || a.out != b.out {
@@ -102,10 +114,11 @@ pub fn run(ctx: &mut Ctx) {
     if let Some(lines) = ctx.replay.clone() {
         for l in lines {
             let w: Vec<&str> = l.split_whitespace().collect();
-            if let ["cancel", m, v, tbl, evs, wevs, drops] = w.as_slice() {
+            if let ["cancel", m, v, tbl, evs, wevs, drops] | ["cancel", m, v, tbl, evs, wevs, drops, _] = w.as_slice() {
                 let frames: Vec<Vec<u8>> = if *tbl == "-" { vec![] } else { tbl.split(';').map(|kv| unhex(kv.split('=').next().unwrap())).collect() };
                 let d: BTreeSet<usize> = if *drops == "-" { BTreeSet::new() } else { drops.split(',').filter_map(|x| x.parse().ok()).collect() };
-                cancel_case(ctx, *m == "c", *v == "v1", &frames, &parse_events(evs), &parse_wevents(wevs), &d);
+                let fl: Vec<bool> = if w.len() == 8 { w[7].trim_start_matches("fl=").split(',').filter(|x| *x != "-").map(|x| x == "1").collect() } else { vec![] };
+                cancel_case_f(ctx, *m == "c", *v == "v1", &frames, &parse_events(evs), &parse_wevents(wevs), &fl, &d);
             }
         }
         return;
@@ -158,7 +171,18 @@ pub fn run(ctx: &mut Ctx) {
             let nd = ctx.rng.below(5) as usize;
             let drops: BTreeSet<usize> = (0..nd).map(|_| ctx.rng.below(30) as usize).collect();
             let verify = ctx.rng.chance(1, 4);
-            cancel_case(ctx, compressed, verify, &frames, &evs, &ws, &drops);
+            // a transport whose flush is sometimes not ready (every await point of the read future is a drop point)
+            let fl: Vec<bool> = if ctx.rng.chance(1, 3) { (0..8).map(|_| ctx.rng.chance(1, 2)).collect() } else { vec![] };
+            cancel_case_f(ctx, compressed, verify, &frames, &evs, &ws, &fl, &drops);
+        }
+        // 3. flush not ready: two plain packets in one segment, every drop index, for several flush scripts
+        for fl in [vec![true], vec![true, true], vec![false, true], vec![true, false, true]] {
+            let frames = vec![ping.clone(), vec![size_byte(compressed, 4), 3, 5, 3], ka.clone(), ping.clone()];
+            let evs = vec![Ev::Data(frames.concat()), Ev::Pending, Ev::Eof];
+            cancel_case_f(ctx, compressed, false, &frames, &evs, &[], &fl, &BTreeSet::new());
+            for i in 0..6usize {
+                cancel_case_f(ctx, compressed, false, &frames, &evs, &[], &fl, &[i].into_iter().collect());
+            }
         }
     }
 }
